@@ -295,17 +295,35 @@ func TestC20(t *testing.T) {
 			if !strings.ContainsAny(d.id, "*%_\\") && !d.nulInId {
 				q := url.Values{}
 				q.Set("id", d.id)
+				q.Set("limit", "100")
 				res := srv.Do(HTTPReq{Method: "GET", Path: "/promises?" + q.Encode()})
 				var sr struct {
 					Promises []wire `json:"promises"`
 				}
 				_ = json.Unmarshal(res.Body, &sr)
-				if res.Code != 200 || len(sr.Promises) != 1 || sr.Promises[0].Id != d.id || string(sr.Promises[0].Param.Data) != string(d.data) || !eqMap(sr.Promises[0].Tags, d.tags) {
-					fail("HTTP search for id %q answered %d with %d promises %s", d.id, res.Code, len(sr.Promises), truncate(string(res.Body), 300))
+				// the statement exempts search PATTERNS from exact comparison (LIKE is case-insensitive for ASCII and stops
+				// at a NUL), so further matches are allowed; the promise itself must be among the results, exactly as supplied
+				var hit *wire
+				for i := range sr.Promises {
+					if sr.Promises[i].Id == d.id {
+						hit = &sr.Promises[i]
+					}
 				}
-				gs, err := g.Promises.SearchPromises(ctx, &pb.SearchPromisesRequest{Id: d.id, Limit: 10})
-				if err != nil || len(gs.Promises) != 1 || gs.Promises[0].Id != d.id || string(gs.Promises[0].Param.GetData()) != string(d.data) {
-					fail("gRPC search for id %q: %v %v", d.id, gs, err)
+				if res.Code != 200 || hit == nil || string(hit.Param.Data) != string(d.data) || !eqMap(hit.Tags, d.tags) {
+					fail("HTTP search for id %q answered %d with %d promises, the promise itself exactly as supplied is not among them: %s", d.id, res.Code, len(sr.Promises), truncate(string(res.Body), 300))
+				}
+				if len(sr.Promises) > 1 {
+					stats.Class("search-pattern-matched-further-ids")
+				}
+				gs, err := g.Promises.SearchPromises(ctx, &pb.SearchPromisesRequest{Id: d.id, Limit: 100})
+				var ghit *pb.Promise
+				for _, p := range gs.GetPromises() {
+					if p.Id == d.id {
+						ghit = p
+					}
+				}
+				if err != nil || ghit == nil || string(ghit.Param.GetData()) != string(d.data) {
+					fail("gRPC search for id %q: the promise itself exactly as supplied is not among the %d results: %v %v", d.id, len(gs.GetPromises()), gs, err)
 				}
 			}
 			// complete (through the other protocol) and read again
